@@ -764,7 +764,7 @@ def analyse(repo):
     # ---- derivations
     derivs = []
 
-    def derivation(opname, an, mapping, allf, kind, copy_writes):
+    def derivation(opname, an, mapping, allf, kind, copy_writes, post=None):
         state, writes = {}, set(copy_writes)
         default = "Keep" if allf else "Reset"
         for key, v in mapping.items():
@@ -798,6 +798,11 @@ def analyse(repo):
         st = {a: pre.get(a, default) for a in all_attrs}
         st = apply_updates(st, [a for a in ss.assigns if a["attr"] != "fmd"])
         st = apply_updates(st, set_attrs_updates)
+        # attributes put on the NEW handle after __setstate__/_set_attrs (`new_pf._x = self._x`): copied as they are
+        for attr, how in (post or []):
+            st[attr] = how
+            if attr in INHERITED and how != "Keep":
+                writes.add(INHERITED[attr][1])
         derivs.append({"name": opname, "writes": sorted(writes), "pols": finish(st, default), "default": default})
 
     gi = infos["__getitem__"]
@@ -812,7 +817,35 @@ def analyse(repo):
         raise TranslatorError("__getitem__: the derived handle's fmd is not a copy.copy of the parent's")
     if gi.info.fmd_writes:
         raise TranslatorError("__getitem__ writes the parent's metadata object: %r" % gi.info.fmd_writes)
-    derivation("__getitem__", gi, mapping, allf, "__getitem__", set(gi.info.copy_alias_writes))
+    # the local that holds the new handle, and what is assigned on it directly
+    newvars = set()
+    for n in ast.walk(methods["__getitem__"]):
+        if isinstance(n, ast.Assign) and len(n.targets) == 1 and isinstance(n.targets[0], ast.Name) and isinstance(n.value, ast.Call):
+            fn_ = n.value.func
+            if isinstance(fn_, ast.Attribute) and (fn_.attr == "__new__" or (fn_.attr in ("copy", "deepcopy") and n.value.args
+                                                                              and isinstance(n.value.args[0], ast.Name) and n.value.args[0].id == "self")):
+                newvars.add(n.targets[0].id)
+    post = []
+    for n in ast.walk(methods["__getitem__"]):
+        if isinstance(n, (ast.Assign, ast.AugAssign)):
+            for t in (n.targets if isinstance(n, ast.Assign) else [n.target]):
+                root, steps, _ = gi.chain(t) if isinstance(t, (ast.Attribute, ast.Subscript)) else (None, [], None)
+                if root in newvars and steps:
+                    v = n.value
+                    r2, s2, _ = gi.chain(v) if isinstance(v, (ast.Attribute, ast.Subscript)) else (None, [], None)
+                    if len(steps) == 1 and steps[0][0] == "a" and r2 == "self" and s2 == [("a", steps[0][1])]:
+                        post.append((steps[0][1], "Keep"))
+                    elif len(steps) == 1 and steps[0][0] == "a" and isinstance(v, ast.Constant) and v.value is None:
+                        post.append((steps[0][1], "Reset"))
+                    else:
+                        raise TranslatorError("__getitem__: unrecognised assignment on the derived handle")
+        elif isinstance(n, ast.Call) and isinstance(n.func, ast.Attribute) and n.func.attr in ("update", "setdefault", "__setattr__"):
+            root, steps, _ = gi.chain(n.func.value) if isinstance(n.func.value, (ast.Attribute, ast.Subscript)) else (None, [], None)
+            if root in newvars:
+                raise TranslatorError("__getitem__: the derived handle's __dict__ is updated wholesale")
+        elif isinstance(n, ast.Call) and getattr(n.func, "id", None) == "setattr":
+            raise TranslatorError("__getitem__: setattr on the derived handle")
+    derivation("__getitem__", gi, mapping, allf, "__getitem__", set(gi.info.copy_alias_writes), post)
     gs = infos["__getstate__"]
     rets = getattr(gs.info, "returns", [])
     if len(rets) != 1:
